@@ -1339,9 +1339,38 @@ func (g *gen) precheck(name string, fd *ast.FuncDecl, tableMode bool) {
 				}
 			}
 		}
+		// a "length sum": constants (< 2^16) and len(…) calls joined by +
+		var lenSum func(e ast.Expr) bool
+		lenSum = func(e ast.Expr) bool {
+			e = stripParens(e)
+			if c := g.constInt(e); c != nil {
+				return *c < 1<<16
+			}
+			if isLenCall(e) {
+				return true
+			}
+			if b, ok := e.(*ast.BinaryExpr); ok && b.Op == token.ADD {
+				return lenSum(b.X) && lenSum(b.Y)
+			}
+			return false
+		}
 		switch op {
 		case token.SHL:
 			g.die(n, "left shift of a 64-bit integer is not modelled (no wrap-around in the model)")
+		case token.MUL:
+			g.die(n, "64-bit multiplication of run-time values is not modelled (no wrap-around in the model)")
+		case token.ADD:
+			// allowed: x + (constant < 2^16), and x + (a sum of constants and len(…) calls) — the counters and lengths of this
+			// code; the separate budgets of an earlier version composed to an overflow (audit round 9)
+			if (cx != nil && *cx < 1<<16) || (cy != nil && *cy < 1<<16) {
+				return
+			}
+			if lenSum(xe) || lenSum(ye) {
+				return
+			}
+			g.die(n, "64-bit addition of two run-time values (neither a constant < 2^16 nor a sum of lengths) is not modelled")
+		}
+		switch op {
 		case token.MUL:
 			small := (cx != nil && *cx < 256) || (cy != nil && *cy < 256)
 			nWideMul++
